@@ -21,7 +21,11 @@ Conds ==
        THEN << CmpC("ge", At(V(1), "n"), LitI(1)), CmpC("eq", At(V(1), "m"), LitI(0)), CmpC("lt", At(V(1), "n"), At(V(1), "m")),
                Truth(At(V(1), "items")), CmpC("ne", At(V(1), "s"), LitS(<<>>)), NotC(CmpC("eq", At(V(1), "n"), LitI(2)), "fn") >>
        ELSE << CmpC("eq", At(V(1), "n"), At(V(2), "m")), CmpC("ge", At(V(1), "n"), LitI(1)), CmpC("lt", At(V(2), "n"), At(V(1), "m")),
-               CmpC("eq", At(V(2), "m"), LitI(0)), CmpC("ne", At(V(1), "ref"), V(2)), Truth(At(V(2), "items")) >>, NConds)
+               CmpC("eq", At(V(2), "m"), LitI(0)), CmpC("ne", At(V(1), "ref"), V(2)), Truth(At(V(2), "items")),
+               \* (NConds > 6) disjunctions / a negated conjunction over the second variable alone
+               OrC(CmpC("eq", At(V(2), "m"), LitI(0)), CmpC("ge", At(V(2), "n"), LitI(2)), "fn"),
+               NotC(AndC(CmpC("ge", At(V(2), "n"), LitI(1)), CmpC("ne", At(V(2), "m"), LitI(1)), "fn"), "fn"),
+               OrC(Truth(At(V(2), "items")), CmpC("eq", At(V(2), "n"), LitI(0)), "fn") >>, NConds)
 
 \* the tree under construction is a stack of open nodes (the with-blocks entered so far); each frame remembers
 \* how it hangs under its parent frame
